@@ -10,7 +10,10 @@
 #include "vh_noinline_end.h"
 using namespace quill;
 
-struct NT
+#ifndef ALIGN
+  #define ALIGN 8
+#endif
+struct alignas(ALIGN) NT
 {
   uint64_t a; uint8_t mid[7]; uint8_t last;              // the LAST byte is significant (no tail padding)
   NT() = delete;
@@ -33,6 +36,7 @@ extern "C" void h_align()
 }
 
 alignas(64) static unsigned char g_buf[64];
+static_assert(2 * ALIGN - 1 + sizeof(NT) + ALIGN - 1 <= 64, "buffer");
 // contract of align_pointer inside g_buf (64-byte aligned): offsets instead of addresses
 extern "C" std::byte* vh_align(void* p, size_t al)
 {
@@ -45,7 +49,7 @@ extern "C" std::byte* vh_align(void* p, size_t al)
 extern "C" void h_deferred()
 {
   for (uint32_t i = 0; i < 64; i++) g_buf[i] = 0xEE;
-  uint32_t start = static_cast<uint32_t>(vnd_range(0, 15));            // the record may start at any alignment
+  uint32_t start = static_cast<uint32_t>(vnd_range(0, 2 * ALIGN - 1));   // the record may start at any alignment
   NT x(vnd_u64());
   for (auto& m : x.mid) m = vnd_u8();
   x.last = vnd_u8();
